@@ -96,6 +96,19 @@ def replay_case(case):
                 why = _judge(m, rows2, obs)
                 if why:
                     bad.append({"spec": {s: val}, "form": "dict", "names": names, "why": why, "expected": rows2, "observed": obs})
+        # mapping with several keys (added): the comma-separated parts as keys, in the written order and in the reverse order - the rows of
+        # (A, b) follow the order of the mapping's items, each part's row as in the comma form with its value added
+        if m["st"] == "OK" and m["gram"] and "=" not in case["t"] and len(parts) > 1 and all(parts) and len(exp_rows) == len(parts):
+            keys = [" ".join(p) for p in parts]
+            if len(set(keys)) == len(keys):
+                for order in (list(range(len(keys))), list(range(len(keys)))[::-1]):
+                    spec = {keys[i]: (i + 1) % 3 for i in order}
+                    rows2 = [{"a": exp_rows[i]["a"], "b": _frac(Fraction(*exp_rows[i]["b"]) + (i + 1) % 3)} for i in order]
+                    obs = observe(spec, names)
+                    why = _judge(m, rows2, obs)
+                    if why:
+                        bad.append({"spec": spec, "form": "dict with several keys", "names": names, "why": why, "expected": rows2, "observed": obs})
+        if m["st"] == "OK" and m["gram"] and "=" not in case["t"] and "," not in case["t"] and case["t"]:
             try:
                 lc = _model_spec(names).get_linear_constraints(s)
                 A = numpy.asarray(lc.constraint_matrix, dtype=float)
